@@ -31,6 +31,7 @@ class Model:
         (len >= card[v]+1); lat_w[l]: int weights; tables[v]: ndarray indexed by
         (parents..., latents at v..., u_v) -> value."""
         self.order = list(order)
+        self.live = [v for v in self.order if card[v] > 1]
         self.parents = {v: list(parents[v]) for v in order}
         self.latents = [(l, list(ch)) for l, ch in latents]
         self.card = dict(card)
@@ -132,11 +133,12 @@ class Model:
         vals = self.world(do)
         flat = np.zeros(self.grid, dtype=np.int64)
         stride = 1
-        for v in reversed(self.order):
+        # (one-valued variables get no axis: numpy allows 32 dimensions, wide graphs have more nodes than that)
+        for v in reversed(self.live):
             flat += np.broadcast_to(vals[v], self.sizes).ravel() * stride
             stride *= self.card[v]
         counts = np.bincount(flat, weights=self.weights_flat().astype(np.float64), minlength=stride)
-        table = np.rint(counts).astype(np.int64).reshape([self.card[v] for v in self.order])
+        table = np.rint(counts).astype(np.int64).reshape([self.card[v] for v in self.live])
         assert int(table.sum()) == self.W
         if len(self._joint) > 128:
             self._joint.clear()
@@ -153,14 +155,17 @@ class Model:
             return hit
         t = self.joint_table(do)
         keep = set(names)
-        axes = tuple(i for i, v in enumerate(self.order) if v not in keep)
+        axes = tuple(i for i, v in enumerate(self.live) if v not in keep)
         m = t.sum(axis=axes) if axes else t
         self._marg[key] = m
         return m
 
     def p(self, assignment: dict, do=None) -> Fraction:
         """P(assignment) in world do (single world), exact."""
-        names = [v for v in self.order if v in assignment]
+        for v in assignment:
+            if self.card.get(v) == 1 and assignment[v] != (do or {}).get(v, 0):
+                return Fraction(0)  # a constant takes its only value (or the value it is set to)
+        names = [v for v in self.live if v in assignment]
         m = self.marginal(do, tuple(names))
         return Fraction(int(m[tuple(assignment[v] for v in names)]), self.W)
 
